@@ -11,7 +11,7 @@ def obligations(tier: str) -> list[Ob]:
     q = tier == "quick"
     return [
         harness_ob(
-            "symbolic_orders", "C12_order.py", tier, timeout=330 if q else 1500, cpus=4,
+            "symbolic_orders", "C12_order.py", tier, timeout=330 if q else 1500, cpus=4 if q else 12, parallel=8 if q else 12,
             encoded=["openapi_python_client.parser.openapi:GeneratorData.from_dict", "openapi_python_client.parser.properties:_create_schemas", "openapi_python_client.parser.properties:_process_models"],
             stubs=[
                 "every set the model/endpoint templates iterate (lazy_imports, relative_imports) is replaced by a set whose iteration order is a symbolic permutation: the interpreter's hash seed becomes a solver variable",
